@@ -462,6 +462,7 @@ func c02Long(g *c02Run) {
 	if g.c.thorough() {
 		lens = append(lens, 4095, 4097, 8191, 8193, 10001, 16385)
 	}
+	lens = around(lens, 20000) // and the neighbours of every integer constant that is new in the source
 	p0, put0 := c02BitLeaf(0, 0)
 	n1, put1 := c02BitLeaf(1, 1)
 	for li, n := range lens {
